@@ -2,14 +2,14 @@
 # Evaluate every finished round-8 seed (/tmp/seed8-Cxx/out/1/{meta.json,patch.diff}) that is not stored yet; stored as Cxx-15.
 # Evidence files written while checking a changed tree are put back from git afterwards.
 export SEED_BASE=/tmp/seed8-%s SEED_OFFSET=14
-cd /verif
+cd "$(dirname "$0")/.." && V=$(pwd)
 for d in /tmp/seed8-C*/out/1; do
   [ -f "$d/meta.json" ] || continue
   [ -f "$d/patch.diff" ] || continue
   pid=$(echo $d | sed 's#/tmp/seed8-\(C[0-9]*\)/out/.*#\1#'); n=$(basename $d)
-  dst=/verif/seeded/$pid-$((n+14))
+  dst=$V/seeded/$pid-$((n+14))
   [ -d "$dst" ] && continue
   python3 tools/seed_eval.py $pid $n --keep 2>&1 | grep -v "^    "
   git checkout -q -- evidence/$pid.json
 done
-rm -rf /verif/replays/*
+rm -rf $V/replays/*
